@@ -40,6 +40,21 @@ Fixpoint perm_b (a b : list cutpair) : bool :=
   | x :: r => match remove_cp x b with Some b' => perm_b r b' | None => false end
   end.
 
+(** a base edge with its cut pairs; the descriptor texts of the edge that live on coarse node x *)
+Definition cutedge := (Z * Z * list cutpair)%type.
+Definition ce_a (e : cutedge) : Z := fst (fst e).
+Definition ce_b (e : cutedge) : Z := snd (fst e).
+Definition ce_L (e : cutedge) : list cutpair := snd e.
+
+(** descriptor texts of a cut edge that live on coarse node x *)
+Definition on (x : Z) (e : cutedge) : list pystr :=
+  (if Z.eqb x (ce_a e) then map cp_d (ce_L e) else []) ++ (if Z.eqb x (ce_b e) then map cp_t (ce_L e) else []).
+
+Definition disjoint_edges_b (e e' : cutedge) : bool :=
+  forallb (fun x => forallb (fun d => negb (str_in d (on x e'))) (on x e)) [ce_a e; ce_b e].
+Fixpoint pairwise_b {A} (f : A -> A -> bool) (l : list A) : bool :=
+  match l with [] => true | x :: r => forallb (f x) r && pairwise_b f r end.
+
 (** one C01 case at the bonding step: the C03 case plus, per base edge, the cut pairs *)
 Record cut_case := { cc_case : case; cc_cuts : list (Z * Z * list cutpair) }.
 Definition bonds_of_edge (a b : Z) (obs : list bobs) : list cutpair :=
@@ -53,8 +68,9 @@ Definition cut_fail (c : cut_case) : nat :=
   | Some (_, obs) =>
       let s0 := c_s0 (cc_case c) in
       if negb (forallb (fun e => let '(a, b, L) := e in
-                 dedicated_b (c_legacy (cc_case c)) (slookup a s0) (slookup b s0) L
-                 && Nat.eqb (length L) (order_sum a b (c_edges (cc_case c)))) (cc_cuts c)) then 1%nat
+                 negb (Z.eqb a b) && dedicated_b (c_legacy (cc_case c)) (slookup a s0) (slookup b s0) L
+                 && Nat.eqb (length L) (order_sum a b (c_edges (cc_case c)))) (cc_cuts c)
+               && pairwise_b disjoint_edges_b (cc_cuts c)) then 1%nat
       else if forallb (fun e => let '(a, b, L) := e in perm_b (bonds_of_edge a b obs) L) (cc_cuts c)
               && Nat.eqb (length obs) (fold_right (fun e acc => (length (snd e) + acc)%nat) 0%nat (cc_cuts c))
            then 0%nat else 2%nat
